@@ -19,8 +19,8 @@ TRUSTED = [
     "(contracts.common_all_c._frozenset)",
     "dict.update(<frozenset of items>): sets the keys of the items, keeps the others (contracts.common_all_c._dict_update)",
     "collections.defaultdict(set) (contracts.mapping_c._defaultdict)",
-    "sorted(<set>, key=..): a list holding exactly the members of the set; the order by key is not assumed "
-    "(contracts.mapping_c._sorted_set)",
+    "sorted(<set>, key=lambda d: d.structure): a list holding exactly the members, non-decreasing in the key; the order of two "
+    "texts is the uninterpreted text_le (contracts.common_all_c._sorted_keyed)",
     "set of DotBracket (value __eq__/__hash__ over sequence, structure) modelled as a set of object identities: admits "
     "value-duplicates, never fewer members",
     "callee contracts proved under C01 (contracts.common_c): BpSeq.__regions, BpSeq.fcfs, DotBracket.from_string@painted, "
@@ -33,8 +33,10 @@ ASSUMPTIONS = [
     "sorted_rearrangement (ASSUMED mathematical fact, used by the completeness clause only): the stems of a component can be "
     "listed in non-decreasing order of the levels F (srt / srti: the sorting bijection and its inverse)",
     "the DFS while-loop and the enumeration loops are proved partially correct (no decreases clause)",
-    "completeness is stated for pseudoknotted structures; for pseudoknot-free ones the single member is BpSeq.fcfs, whose "
-    "contract (contracts.common_c) exports losslessness but not the painted levels",
+    "completeness is stated for pseudoknotted structures; for pseudoknot-free ones the single member is BpSeq.fcfs (round "
+    "brackets only, proved)",
+    "FC_definition (definitional lemma of contracts.common_c, listed under C01) is used for fcfs's own stem list on the "
+    "pseudoknot-free path only",
 ]
 EXPLANATION = (
     "Under contract (contracts.common_all_c, reusing contracts.common_c): BpSeq.all_dot_brackets (all ten loops) and a "
@@ -55,11 +57,19 @@ EXPLANATION = (
     "component sorted by F replays F (`next-is-f`, `sorted-permutation-replays-f`), it is enumerated (permutations), the "
     "per-component records are combined (product) and F's painting enters the set. "
     "lemma fcfs_levels_are_proper_and_greedy_stable (SMT): the FCFS levels FC (FC_def of contracts.common_c) are proper and "
-    "greedy-stable, hence - by the completeness clause - their painting is a member ('always contains the FCFS notation'; "
-    "identifying that member with BpSeq.fcfs needs the fcfs contract to export its painting, which it does not). "
+    "greedy-stable; ensures fcfs-notation-is-a-member: for a pseudoknotted structure, if F lists the FCFS levels of `regions` "
+    "(fc_is: FC_def(regions), F[a] == FC(a) < 30) some member's text is painted with them ('always contains the FCFS "
+    "notation'; BpSeq.fcfs is not called on that path, its contract says its text is painted with the same levels over "
+    "its own copy of the stems - that the two stem lists coincide rests on cached_property, C01's listed assumption). "
+    "ensures round-brackets-only-when-pseudoknot-free: the early-exit member IS the object returned by self.fcfs (exit "
+    "obligation `result[0] is fcfs_result`), and its text has only '(' ')' '.': no two stems of `regions` cross => no two "
+    "stems of fcfs's stem list cross (crossing base pairs lie on two different crossing stems of `regions`: regions_cover + "
+    "lemma strands_apart) => nothing is ever taken => FC == 0 everywhere => painted_g with level 0. "
+    "ensures ordered-by-structure-text (C14): ascending by the members' texts (text_le). "
     "ensures single-notation-when-pseudoknot-free: no crossing stems => exactly one member (BpSeq.fcfs). "
     "Stays bounded (oracle): 'without repetition' (needs extensional frozenset / DotBracket value equality), 'contains the "
-    "optimal notation' (optimal => greedy-stable, exchange argument), the round-bracket form of the pseudoknot-free member.")
+    "optimal notation' (optimal => greedy-stable, exchange argument), position-by-position equality of the FCFS member with "
+    "self.fcfs's text for pseudoknotted structures (fcfs is not called there).")
 
 
 def bounded(tier, seed):
